@@ -33,8 +33,9 @@ def inv(records, next_uid):
 class UidListCtx:
     """context-manager model of UidList.with_write(path) (see module docstring)"""
 
-    def __init__(self, may_remove=False):
+    def __init__(self, may_remove=False, may_drop=None):
         self.may_remove = may_remove
+        self.may_drop = may_drop        # (ex, frame) -> z3 predicate over a uid term: the one record the block may drop
 
     def __call__(self, ex, frame, item, phase):
         name = ex.c.name
@@ -59,8 +60,10 @@ class UidListCtx:
         ex.oblige(f'{name}/uidlist_written/UidListInv', _b(inv(recs, nxt)))
         ex.oblige(f'{name}/uidlist_written/next_uid_never_goes_down', _b(nxt >= oldn))
         if not self.may_remove:
+            drop = self.may_drop(ex, frame) if self.may_drop is not None else (lambda u: z3.BoolVal(False))
             ex.oblige(f'{name}/uidlist_written/no_recorded_uid_is_dropped_or_given_to_another_message',
-                      _b(forall(lambda u: implies(old.has(u), recs.has(u) & (recs[u] == old[u])), sort=INT)))
+                      _b(forall(lambda u: implies(old.has(u) & ~VBool(drop(_t(u))), recs.has(u) & (recs[u] == old[u])) &
+                                implies(old.has(u) & recs.has(u), recs[u] == old[u]), sort=INT)))
         ex.st.ghost['uidl.final_records'] = ex.st.store[uidl.rid]['_records']
         ex.st.ghost['uidl.final_next'] = nxt
         ex.st.events.append('uidlist.written')
@@ -216,9 +219,34 @@ def _move_message(ex, frame, e, base=None):
     return Str.fresh('new_filename')
 
 
+def _moved_within_the_same_mailbox(ex, frame):
+    """a move into the mailbox itself re-numbers the message: the record of its old uid (and only that one) is dropped"""
+    me, dest, uid = ex.frames[0].env['self'], ex.frames[0].env['destination'], ex.frames[0].env['uid']
+    return lambda u: z3.And(me.t == dest.t, u == _t(uid))
+
+
+class _Stack:
+    """AsyncExitStack + enter_async_context of the message locks: no effect on the UID list"""
+
+    def __call__(self, ex, frame, item, phase):
+        if phase == 'enter' and item.optional_vars is not None:
+            ex.assign(item.optional_vars, RefS('ExitStack').fresh('stack'), frame)
+
+
+def _uidl_remove(ex, frame, e, base=None):
+    """UidList.remove(uid): del self._records[uid] (KeyError when absent -- outside the model: the record was read above)"""
+    args, kw = ex.eval_args(e, frame)
+    uidl = ex.st.ghost['uidl.rid']
+    recs = ex.st.store[uidl.rid]['_records']
+    ex.st.store[uidl.rid]['_records'] = recs.delete(args[0])
+    return VNone()
+
+
 move = Contract(
     'C15', F, 'MailboxData.move', params=dict(self=MBX, uid=INT, destination=MBX, recent=BOOL),
-    calls=dict(_CALLS, **{'UidList.with_read': _ReadCtx(), 'uidl.get': _uidl_get, 'maildir.move_message': _move_message}),
+    calls=dict(_CALLS, **{'UidList.with_read': _ReadCtx(), 'uidl.get': _uidl_get, 'maildir.move_message': _move_message,
+                          'UidList.with_write': UidListCtx(may_drop=_moved_within_the_same_mailbox), 'AsyncExitStack': _Stack(),
+                          'stack.enter_async_context': lambda ex, frame, e, base=None: VNone(), 'uidl.remove': _uidl_remove}),
     ensures=[('hands_out_exactly_the_old_next_uid_of_the_destination', lambda s: implies(~is_none(s.result), _new_uid_facts(s))),
              ('nothing_is_written_when_the_source_is_gone', lambda s: implies(is_none(s.result), VBool('uidlist.written' not in s._st.events)))],
     raises_only=(), ghost_init=_ghost0, returns=OptS(INT))
